@@ -494,6 +494,16 @@ increment_simple_rowgroup_ctr(j_decompress_ptr cinfo, JDIMENSION rows)
   rows_left = rows % cinfo->max_v_samp_factor;
   cinfo->output_scanline += rows - rows_left;
 
+  /* The rows skipped above never passed through the upsampler, so its count of
+   * the rows remaining in the image has to be brought up to date here.  (Not
+   * every caller does that after we return.)
+   */
+  if (!master->using_merged_upsample) {
+    my_upsample_ptr upsample = (my_upsample_ptr)cinfo->upsample;
+
+    upsample->rows_to_go = cinfo->output_height - cinfo->output_scanline;
+  }
+
   read_and_discard_scanlines(cinfo, rows_left);
 }
 
